@@ -79,6 +79,27 @@ def faults(vals, s, lo=0.0, hi=1.0, name="pep"):
     return out
 
 
+def qvality_reference(s, t):
+    """PEP per PSM straight from triqler: it returns the PEPs of all scores sorted in descending order;
+    equal scores receive equal values, so a score -> value table is well defined."""
+    try:
+        from triqler import qvality
+    except Exception:  # noqa: BLE001
+        return None
+    old, qvality.VERB = qvality.VERB, 0
+    try:
+        _, peps = qvality.getQvaluesFromScores(s[t].copy(), s[~t].copy(), includeDecoys=True, includePEPs=True, tdcInput=False)
+    finally:
+        qvality.VERB = old
+    srt = np.sort(s)[::-1]
+    table = {}
+    for sc, p in zip(srt.tolist(), np.asarray(peps, dtype=float).tolist()):
+        if sc in table and abs(table[sc] - p) > 1e-12:
+            return None  # the library itself is not a function of the score here: no reference
+        table.setdefault(sc, p)
+    return np.array([table[x] for x in s.tolist()])
+
+
 def plan(seed, tier):
     cases = []
     n = 10 if tier == "quick" else 120
@@ -135,6 +156,15 @@ def _run_alg(case, fn, algname, lo, hi, name):
                                 b=float(v[p][k]) if k >= 0 else None, **extra)
             else:
                 res.violate("crash", c2.sig + "/permuted", msg=c2.info["msg"], **extra)
+        if algname == "qvality" and not fl:
+            # 'belongs to its PSM': the value returned for PSM i must be the value the underlying (third-party)
+            # estimator assigns to score s_i - it reports PEPs for the scores sorted in descending order
+            ref = qvality_reference(s, t)
+            res.count("qvality_reference_comparisons")
+            if ref is not None and not np.allclose(v, ref, rtol=1e-9, atol=1e-12):
+                k = int(np.argmax(np.abs(v - ref)))
+                res.violate("pep_of_another_psm", algname, worst=k, got=float(v[k]), expected=float(ref[k]), score=float(s[k]),
+                            n_mismatch=int((~np.isclose(v, ref, rtol=1e-9, atol=1e-12)).sum()), **extra)
         nt += 1
         if rep == 0:
             res["sample"] = dict(extra, n=len(s), head_scores=s[:5].tolist(), head_values=v[:5].tolist())
